@@ -1,7 +1,17 @@
 // zkexec: executes scenarios on the real zerokit code and records traces for the TLA+ judges.
 mod intern;
+#[cfg(not(feature = "stateless"))]
+mod rln_exec;
 mod tree_exec;
 mod util;
+
+/// the tree backend the rln crate selects in this build
+#[cfg(feature = "fullmerkletree")]
+pub const BACKEND: &str = "full";
+#[cfg(all(feature = "pmtree", not(feature = "fullmerkletree")))]
+pub const BACKEND: &str = "pm";
+#[cfg(all(not(feature = "pmtree"), not(feature = "fullmerkletree")))]
+pub const BACKEND: &str = "optimal";
 
 use intern::Interner;
 use util::*;
@@ -15,6 +25,8 @@ fn main() {
     quiet_panics();
     match args[1].as_str() {
         "tree" => cmd_tree(&args),
+        #[cfg(not(feature = "stateless"))]
+        "rln" => cmd_rln(&args),
         c => {
             eprintln!("unknown command {c}");
             std::process::exit(2);
@@ -45,4 +57,15 @@ fn cmd_tree(args: &[String]) {
     }
     write_ndjson(out_path, &out);
     write_json(tab_path, &it.tables());
+}
+
+/// zkexec rln --scenario S --out T --tab TAB : the same scenario language through the public RLN API
+#[cfg(not(feature = "stateless"))]
+fn cmd_rln(args: &[String]) {
+    let scenario = read_ndjson(arg(args, "--scenario").expect("--scenario"));
+    let mut it = Interner::new();
+    let mut out = Vec::new();
+    rln_exec::run(&scenario, &mut it, &mut out);
+    write_ndjson(arg(args, "--out").expect("--out"), &out);
+    write_json(arg(args, "--tab").expect("--tab"), &it.tables());
 }
